@@ -21,7 +21,6 @@ import (
 	"io"
 	"net"
 	"strconv"
-	"strings"
 	"sync"
 	"time"
 
@@ -102,7 +101,7 @@ func (server *Server) SetCommandHandler(handler UserCommandHandler) {
 // RegisterExexutor sets a command executor.
 func (server *Server) RegisterExexutor(cmd string, executor Executor) {
 	// Command names are matched case-insensitively: the lookup uses the upper-case name.
-	server.commandExecutors[strings.ToUpper(cmd)] = executor
+	server.commandExecutors[toUpperASCII(cmd)] = executor
 }
 
 // Start starts the server.
